@@ -58,7 +58,7 @@ def rand_scalar(rng, hostile=True, marker=None):
 def scalar_node(rng, v):
     n = S(v)
     if isinstance(v, str):
-        n['style'] = rng.choice(['plain', 'dq', 'sq', 'dq'])
+        n['style'] = rng.choice(['plain', 'dq', 'sq', 'dq', 'lit', 'fold'])
     elif v is None:
         n['nf'] = rng.choice(['~', 'null', 'null', ''])
     return n
@@ -119,6 +119,12 @@ def mutate_doc(rng, base, depth=3, **kw):
                 continue                      # not mentioned by the newer document
             if r < 0.7 and c['t'] == 'map':
                 items.append([k, rec(c, d - 1)])
+            elif r < 0.62 and c['t'] == 'seq' and c['items']:
+                # a list over a list whose elements revisit the old elements (containers at the same index on both sides)
+                els = [rec(e, d - 1) if e['t'] == 'map' else rand_node(rng, d - 1, **kw) for e in c['items'][:rng.randrange(1, len(c['items']) + 1)]]
+                if rng.random() < 0.3:
+                    els.append(rand_node(rng, d - 1, **kw))
+                items.append([k, L(els)])
             elif r < 0.8 and c['t'] == 'seq' and c['items']:
                 # mapping addressing list indices (some invalid on purpose)
                 n_el = len(c['items'])
